@@ -1,17 +1,53 @@
 # C05 registry entry: see lib/registry.py for the field meanings
-PROP = {'rule': 'rapid-generated cases. ownerMatch: 0-3 owners (object ref / controller ref / label selector, any combination incl. the '
-         'empty owner) x pod (name, namespace, uid, labels, 0-2 owner references) over small value pools; non-trivial = an owner with '
-         '>=2 selectors ANDed or >=2 owners ORed. distinct = FNV-64 fingerprint of the full case.',
- 'assumptions': ['owner specifications are syntactically valid label selectors (what the API server admits)'],
+PROP = {'rule': 'rapid-generated cases. cacheHistory: state machine (~40 steps) over 1-3 nodes, up to 5 reservations (allocate-once or not, '
+         'Default/Aligned/Restricted with optional restricted-resources option, inner-reserved annotation, labels, selector index on/off) '
+         'and up to 10 pods with arbitrary requests, driven through reservationEventHandler.On*, podEventHandler.On*, '
+         'assumeReservation/forgetReservation, assumePod/forgetPods and the global handler\'s DeleteReservation (before, after or delayed '
+         'behind the plugin handler); non-trivial = history contains assign -> reservation becomes unavailable/unmatchable -> unassign, '
+         'or a reservation deleted while holding pods. fit: (reserved dims incl. optional pods, policy, restricted option, inner reserved, '
+         '0-3 pods assigned through AddAssignedPod, preemptible amounts, request aimed at the exact boundary); non-trivial = some counted '
+         'dimension requested within 1 unit of the remaining room. nominate: 1-3 reservations on 2 nodes, 2-5 scheduling cycles '
+         '(BeforePreFilter, PreFilter, Filter, optional PreScore, Reserve) with reservation-update / bind / Unreserve / pod-delete / '
+         'reservation-succeeded events in between; non-trivial = a cycle whose pod has reservation affinity and exactly one matched '
+         'reservation on the chosen node. ownerMatch: 0-3 owners (object ref / controller ref / label selector, any combination incl. '
+         'the empty owner) x pod (name, namespace, uid, labels, 0-2 owner references) over small value pools; non-trivial = an owner with '
+         '>=2 selectors ANDed or >=2 owners ORed. distinct = FNV-64 fingerprint of the full case (history).',
+ 'assumptions': ['a reservation never changes node and its set of reserved dimensions (and restricted-resources option) is fixed for its '
+                 'lifetime; amounts, labels, phase, unschedulable, deletionTimestamp change freely',
+                 'pod events name a reservation that is in the cache at that moment, or one that never is (the pod and reservation informers '
+                 'are independent; a pod event overtaking the add of its reservation is not generated)',
+                 'per reservation event the plugin handler and the global frameworkext handler both run, in either order; the global '
+                 'DeleteReservation may additionally be delayed behind later pod events, but the plugin handler never lags the global '
+                 'handler by more than the current event',
+                 'requests are whole milli-cores / bytes / pieces (what the API server admits), so milli-unit integer arithmetic is exact',
+                 'owner specifications are syntactically valid label selectors; reservation-operating-mode pods and pre-allocation are '
+                 'not generated',
+                 'the fit check is asserted in both directions (accepted iff every counted dimension and the pods dimension fit); the '
+                 'statement itself only requires the "accepted only if" direction (signatures fit:accepted-* / fit:restricted-admitted-*)'],
  'units': [{'name': 'plugin',
             'pkg': 'pkg/scheduler/plugins/reservation',
-            'files': ['C05/c05_cache_test.go'],
-            'tests': [{'run': 'TestVerifC05CacheHistory', 'quick': 1500, 'thorough': 6000, 'steps': 40},
-                      {'run': 'TestVerifC05Fit', 'quick': 4000, 'thorough': 30000}]},
+            'files': ['C05/c05_cache_test.go', 'C05/c05_nominate_test.go'],
+            'tests': [{'run': 'TestVerifC05CacheHistory', 'quick': 4000, 'thorough': 20000, 'steps': 40},
+                      {'run': 'TestVerifC05Fit', 'quick': 10000, 'thorough': 80000},
+                      {'run': 'TestVerifC05Nominate', 'quick': 2000, 'thorough': 8000}]},
            {'name': 'owners',
             'pkg': 'pkg/util/reservation',
             'files': ['C05/c05_owner_test.go'],
-            'tests': [{'run': 'TestVerifC05OwnerMatch', 'quick': 4000, 'thorough': 30000}]}],
- 'manifest': {'technique': 'property-based testing (rapid)',
-              'text': 'wip',
-              'note': 'wip'}}
+            'tests': [{'run': 'TestVerifC05OwnerMatch', 'quick': 10000, 'thorough': 80000}]}],
+ 'manifest': {'technique': 'property-based testing (rapid): model-based state machine over the reservation cache event handlers, '
+                           'boundary-aimed generated inputs with an exact integer oracle for the fit check, generated scheduling '
+                           'cycles, and a differential against an independent owner matcher',
+              'text': 'Generated-history search: after every add/update/delete of reservations and assume/forget/add/update/delete of '
+                      'pods (through the real informer handlers, incl. duplicate, delayed and re-ordered handler invocations) each '
+                      'reservation\'s Allocated and pre-calculated AllocatedResource are compared with the sum of the model\'s assigned '
+                      'pods masked to the reserved dimensions, and reservationsOnNode / matchableOnNode / allocatedOnNode / the label '
+                      'index and their read APIs are checked for dangling entries and for listing every live (matchable, allocated) '
+                      'reservation of the node. fitsReservation / fitsNodeAndReservation verdicts are compared with an exact big-integer '
+                      'predicate on requests placed at, one below and one above the remaining room. Whole scheduling cycles check that '
+                      'the reservation a pod is assumed on satisfies its owner spec (independent matcher), is not an allocate-once '
+                      'reservation that already holds a pod, and stays within a Restricted reservation. MatchReservationOwners is '
+                      'compared with an independent re-statement of the documented DNF. Exploration, not proof: absence of violations '
+                      'over the sampled histories.',
+              'note': 'fixed reserved-dimension set per reservation; bounded handler skew (see assumptions); Go map iteration inside '
+                      'koordinator (which of several equally scored reservations is nominated) is not controlled; rapid\'s PRNG and '
+                      'shrinker'}}
